@@ -21,6 +21,8 @@ var (
 	c17pWriteOnPong = sim.RegStat("probe:c17-app-write-started-while-control-reply-flush-pending")
 	c17pReadOnWrite = sim.RegStat("probe:c17-read-started-while-app-write-in-flight")
 	c17pPong        = sim.RegStat("probe:c17-automatic-pong")
+	c17pChainMany   = sim.RegStat("probe:c17-handler-started-a-second-operation")
+	c17pManyWr      = sim.RegStat("probe:c17-second-app-write-started-while-one-is-in-flight")
 	c17pChainRW     = sim.RegStat("probe:c17-write-started-from-inside-a-read-completion")
 	c17pChainRR     = sim.RegStat("probe:c17-read-started-from-inside-a-read-completion")
 	c17pChainWW     = sim.RegStat("probe:c17-write-started-from-inside-a-write-completion")
@@ -37,12 +39,16 @@ type c17Op struct {
 	n             int
 	buf           []byte
 	closedAtStart bool
+	nested        bool  // started from inside a completion callback
+	wireEnd       int64 // frame-carrying writes: encoded size of all application frames up to and including this one
 }
 
 type c17 struct {
 	*wsSess
 	ops      []*c17Op
-	rd, wr   *c17Op
+	rd       *c17Op
+	wrs      int // application writes (AsyncWrite, AsyncWriteFrame, AsyncFlush, AsyncClose) in flight
+	maxWr    int // how many of them the application keeps in flight at once
 	sent     []wsFrame // what the peer sent, in order
 	consumed int       // how many of them completed reads have covered
 	appOut   []wsFrame // application frames in submission order
@@ -50,16 +56,40 @@ type c17 struct {
 	closed   bool
 	writeSeq []int // completion order of application writes (op ids)
 	chain    int   // how many more operations completion callbacks may start themselves
+	depth    int   // completion callbacks on the stack
+	appBytes int64 // encoded size of the application frames submitted so far
+	acc0     int64 // bytes the client's socket had accepted when the session became active
 }
 
 func (d *c17) newOp(kind string) *c17Op {
-	op := &c17Op{id: len(d.ops), kind: kind, closedAtStart: d.closed}
+	op := &c17Op{id: len(d.ops), kind: kind, closedAtStart: d.closed, nested: d.depth > 0}
 	d.ops = append(d.ops, op)
+	d.w.Tracef("c17 op %d %s start (reads in flight %v, writes in flight %d, pending control frames %d)", op.id, kind, d.rd != nil, d.wrs, d.ws.Pending())
 	return op
+}
+
+// accepted: bytes of this session the client's socket has taken from sonic so far.
+func (d *c17) accepted() int64 { return d.srv.end.Peer().Accepted - d.acc0 }
+
+// submit accounts for an application frame with n payload bytes (masked client frame).
+func (d *c17) submit(op *c17Op, n int) {
+	h := 2 + 4
+	if n > 65535 {
+		h += 8
+	} else if n > 125 {
+		h += 2
+	}
+	d.appBytes += int64(h + n)
+	op.wireEnd = d.appBytes
 }
 
 func (d *c17) done(op *c17Op) {
 	op.calls++
+	if op.err == nil && op.wireEnd > 0 && d.accepted() < op.wireEnd {
+		// frames go out in submission order, control replies only add bytes: when this write is reported done
+		// the transport must have taken at least every application frame up to it
+		d.c.Failf("completed-before-its-frame-was-written/"+op.kind, "%s (op %d) completed with nil although the transport has taken only %d bytes and the application frames up to this one need %d", op.kind, op.id, d.accepted(), op.wireEnd)
+	}
 	d.w.Tracef("c17 op %d %s complete #%d err=%v", op.id, op.kind, op.calls, op.err)
 	if op.calls > 1 {
 		d.c.Failf("callback-invoked-twice/"+op.kind, "the callback of %s (op %d) was invoked %d times", op.kind, op.id, op.calls)
@@ -68,30 +98,38 @@ func (d *c17) done(op *c17Op) {
 
 // chainFrom: what handlers usually do - the completion callback starts the next operation itself.
 func (d *c17) chainFrom(read bool) {
-	if d.chain <= 0 || d.closed {
-		return
-	}
 	w := d.w
-	switch w.Choose(4) {
-	case 1:
-		if d.rd == nil {
-			d.chain--
-			if read {
-				w.Stat(c17pChainRR)
-			} else {
-				w.Stat(c17pChainWR)
-			}
-			d.startRead()
+	// a handler may start several operations: the next read and an echo, two writes, a write and a flush
+	for k := 0; k < 3; k++ {
+		if d.chain <= 0 || d.closed {
+			return
 		}
-	case 2, 3:
-		if d.wr == nil {
-			d.chain--
-			if read {
-				w.Stat(c17pChainRW)
-			} else {
-				w.Stat(c17pChainWW)
+		switch w.Choose(4) {
+		case 0:
+			return
+		case 1:
+			if d.rd == nil {
+				d.chain--
+				if read {
+					w.Stat(c17pChainRR)
+				} else {
+					w.Stat(c17pChainWR)
+				}
+				d.startRead()
 			}
-			d.startWrite(w.Choose(3))
+		case 2, 3:
+			if d.wrs < d.maxWr {
+				d.chain--
+				if read {
+					w.Stat(c17pChainRW)
+				} else {
+					w.Stat(c17pChainWW)
+				}
+				if k > 0 {
+					w.Stat(c17pChainMany)
+				}
+				d.startWrite(w.Choose(3))
+			}
 		}
 	}
 }
@@ -115,7 +153,7 @@ func (d *c17) startReadKind(frame bool) {
 		return
 	}
 	w := d.w
-	if d.wr != nil {
+	if d.wrs > 0 {
 		w.Stat(c17pReadOnWrite)
 	}
 	if frame {
@@ -129,7 +167,9 @@ func (d *c17) startReadKind(frame bool) {
 			d.done(op)
 			d.rd = nil
 			d.onRead(op)
+			d.depth++
 			d.chainFrom(true)
+			d.depth--
 		})
 	} else {
 		op := d.newOp("AsyncNextMessage")
@@ -140,10 +180,12 @@ func (d *c17) startReadKind(frame bool) {
 			d.done(op)
 			d.rd = nil
 			d.onRead(op)
+			d.depth++
 			d.chainFrom(true)
+			d.depth--
 		})
 	}
-	if d.rd != nil && d.wr != nil {
+	if d.rd != nil && d.wrs > 0 {
 		w.Stat(c17pBoth)
 	}
 }
@@ -189,10 +231,13 @@ func (d *c17) onRead(op *c17Op) {
 }
 
 func (d *c17) startWrite(kind int) {
-	if d.wr != nil || d.closed {
+	if d.wrs >= d.maxWr || d.closed {
 		return
 	}
 	w := d.w
+	if d.wrs > 0 {
+		w.Stat(c17pManyWr)
+	}
 	if d.flushPending() {
 		w.Stat(c17pWriteOnPong)
 	}
@@ -202,39 +247,46 @@ func (d *c17) startWrite(kind int) {
 		return func(err error) {
 			op.err = err
 			d.done(op)
-			d.wr = nil
-			d.writeSeq = append(d.writeSeq, op.id)
+			d.wrs--
+			if !op.nested {
+				d.writeSeq = append(d.writeSeq, op.id)
+			}
 			if err != nil {
 				d.c.Failf("write-failed-on-healthy-transport/"+op.kind, "%s failed with %v although the transport is healthy", op.kind, err)
 			}
+			d.depth++
 			d.chainFrom(false)
+			d.depth--
 		}
 	}
 	switch kind {
 	case 0:
 		op := d.newOp("AsyncWrite")
-		d.wr = op
+		d.wrs++
 		d.appOut = append(d.appOut, wsFrame{Fin: true, Opcode: wsBinary, Payload: p})
+		d.submit(op, len(p))
 		d.ws.AsyncWrite(p, websocket.TypeBinary, fin(op))
 	case 1:
 		op := d.newOp("AsyncWriteFrame")
-		d.wr = op
+		d.wrs++
 		f := d.ws.AcquireFrame()
 		f.SetFIN().SetText().SetPayload(p)
 		d.appOut = append(d.appOut, wsFrame{Fin: true, Opcode: wsText, Payload: p})
+		d.submit(op, len(p))
 		d.ws.AsyncWriteFrame(f, fin(op))
 	case 2:
 		op := d.newOp("AsyncFlush")
-		d.wr = op
+		d.wrs++
 		d.ws.AsyncFlush(fin(op))
 	case 3:
 		op := d.newOp("AsyncClose")
-		d.wr = op
+		d.wrs++
 		d.closed = true
 		d.appOut = append(d.appOut, wsFrame{Fin: true, Opcode: wsClose, Payload: wsClosePayload(1000, "")})
+		d.submit(op, 2)
 		d.ws.AsyncClose(websocket.CloseNormal, "", fin(op))
 	}
-	if d.rd != nil && d.wr != nil {
+	if d.rd != nil && d.wrs > 0 {
 		w.Stat(c17pBoth)
 	}
 }
@@ -260,13 +312,14 @@ func (d *c17) peer(kind int) {
 
 func runC17(c *Ctx, variant int) {
 	w := c.W
-	d := &c17{wsSess: newWsSess(c)}
+	d := &c17{wsSess: newWsSess(c), maxWr: 1}
 	defer d.close()
 	if variant < 0 {
 		w.EnableFaults(sim.FSegment, sim.FShortRead, sim.FDelay, sim.FEpollPermute)
 		w.TCPSndCap = w.Pick(1<<20, 16, 200, 4096)
 	}
 	d.connect()
+	d.acc0 = d.srv.end.Peer().Accepted
 	// the message API hands control frames to this callback as it consumes them
 	d.ws.SetControlCallback(func(t websocket.MessageType, p []byte) {
 		if byte(t) == wsPing && !d.closed {
@@ -313,7 +366,8 @@ func runC17(c *Ctx, variant int) {
 		}
 	} else {
 		d.chain = w.Pick(0, 2, 6)
-		steps := w.Range(3, 20)
+		d.maxWr = w.Pick(1, 2, 4)
+		steps := w.Range(3, c.Deep(20))
 		for i := 0; i < steps; i++ {
 			switch w.Choose(10) {
 			case 0, 1, 2:
@@ -333,7 +387,7 @@ func runC17(c *Ctx, variant int) {
 	}
 	// --- quiescence: the peer satisfies the pending read, the loop is polled
 	peerClosed := false
-	for round := 0; round < 600 && (d.rd != nil || d.wr != nil); round++ {
+	for round := 0; round < 600 && (d.rd != nil || d.wrs > 0); round++ {
 		if d.rd != nil && !d.closed && (d.consumed >= len(d.sent) || round%25 == 24) {
 			// a message read that has only seen control frames so far needs a data frame to end
 			d.peer(0)
@@ -354,7 +408,7 @@ func runC17(c *Ctx, variant int) {
 	}
 	for i := 1; i < len(d.writeSeq); i++ {
 		if d.writeSeq[i] < d.writeSeq[i-1] {
-			c.Failf("writes-completed-out-of-order", "application write op %d completed before op %d", d.writeSeq[i-1], d.writeSeq[i])
+			c.Failf("writes-completed-out-of-order", "application write op %d completed before op %d although neither was started from inside a completion handler", d.writeSeq[i-1], d.writeSeq[i])
 		}
 	}
 	// flush what the read path still queued, then the wire must hold whole frames, each once
